@@ -28,13 +28,26 @@ pub open spec fn ty_size(t: Type, reg: &TypeRegistry) -> Option<usize>
         },
     }
 }
-/// sum of sizes of regions (all must be sized; unsized counted as 0)
+/// sum of sizes of regions (all must be sized; unsized counted as 0).
+/// Opaque: proofs use the lemmas below, so that unfolding never feeds a matching loop with vstd's
+/// take/drop_last axioms.
+#[verifier::opaque]
 pub open spec fn sum_sizes(rs: Seq<Region>, reg: &TypeRegistry) -> nat
     decreases rs.len()
 {
     if rs.len() == 0 { 0 } else {
         sum_sizes(rs.drop_last(), reg) + (match ty_size(rs.last().type_ref, reg) { Some(s) => s as nat, None => 0 })
     }
+}
+pub open spec fn region_size(r: Region, reg: &TypeRegistry) -> nat { match ty_size(r.type_ref, reg) { Some(s) => s as nat, None => 0 } }
+pub proof fn lemma_sum_empty(reg: &TypeRegistry)
+    ensures sum_sizes(Seq::<Region>::empty(), reg) == 0
+{ reveal_with_fuel(sum_sizes, 2); }
+pub proof fn lemma_sum_push(rs: Seq<Region>, r: Region, reg: &TypeRegistry)
+    ensures sum_sizes(rs.push(r), reg) == sum_sizes(rs, reg) + region_size(r, reg)
+{
+    reveal_with_fuel(sum_sizes, 2);
+    assert(rs.push(r).drop_last() == rs);
 }
 pub open spec fn all_sized(rs: Seq<Region>, reg: &TypeRegistry) -> bool {
     forall|i: int| 0 <= i < rs.len() ==> ty_size(#[trigger] rs[i].type_ref, reg) is Some
@@ -86,13 +99,13 @@ pub proof fn lemma_sum_nonneg(rs: Seq<Region>, reg: &TypeRegistry)
     ensures sum_sizes(rs, reg) >= 0
     decreases rs.len()
 {
-    if rs.len() > 0 { lemma_sum_nonneg(rs.drop_last(), reg); }
 }
 pub proof fn lemma_offset_step(rs: Seq<Region>, j: int, reg: &TypeRegistry)
     requires 0 <= j < rs.len()
     ensures offset_of(rs, j + 1, reg) == offset_of(rs, j, reg) + (match ty_size(rs[j].type_ref, reg) { Some(s) => s as nat, None => 0 })
 {
-    assert(rs.take(j + 1).drop_last() == rs.take(j));
+    assert(rs.take(j + 1) == rs.take(j).push(rs[j]));
+    lemma_sum_push(rs.take(j), rs[j], reg);
 }
 pub proof fn lemma_offset_mono(rs: Seq<Region>, j: int, reg: &TypeRegistry)
     requires 0 <= j <= rs.len()
@@ -109,7 +122,16 @@ pub proof fn lemma_same_types_same_sums(a: Seq<Region>, b: Seq<Region>, reg: &Ty
     ensures sum_sizes(a, reg) == sum_sizes(b, reg), all_sized(a, reg) ==> all_sized(b, reg)
     decreases a.len()
 {
-    if a.len() > 0 { lemma_same_types_same_sums(a.drop_last(), b.drop_last(), reg); }
+    if a.len() > 0 {
+        lemma_same_types_same_sums(a.drop_last(), b.drop_last(), reg);
+        assert(a == a.drop_last().push(a.last()));
+        assert(b == b.drop_last().push(b.last()));
+        lemma_sum_push(a.drop_last(), a.last(), reg);
+        lemma_sum_push(b.drop_last(), b.last(), reg);
+    } else {
+        assert(a == Seq::<Region>::empty());
+        assert(b == Seq::<Region>::empty());
+    }
     if all_sized(a, reg) {
         assert forall|i: int| 0 <= i < b.len() implies ty_size(#[trigger] b[i].type_ref, reg) is Some by { assert(ty_size(a[i].type_ref, reg) is Some); }
     }
